@@ -119,6 +119,14 @@ def build2(w):
     w.contract(QUOTE, 'quote_literal', params={'string': 'str'}, returns='str', trusted=True)      # whole-string meaning: homomorphism meta-lemma over the per-character view
     w.contract(ECG, 'EdgeQLSourceGenerator.visit_Constant', view='forms', params={'self': 'Gen', 'node': 'CNode'}, returns='none',
         requires=['self.out == ""', 'self.cur == node.value', 'node.kind == Kind.STRING'], modifies=['Gen.out'])
+    # SQL side: a string constant of the SQL tree is written as exactly common.quote_literal(value) -- the function whose output is under contract above (per-character view)
+    # and under the lexer oracle; any other spelling (E'..' forms, hand-made escaping) leaves that cover
+    w.refclass('PGen', {'out': 'str'}); w.refclass('SNode', {'val': 'str'})
+    w.ufunc('PGQL', ['str'], 'str')
+    w.ext_methods['PGen.write'] = dict(params={'text': 'str'}, returns='none', modifies=['PGen.out'], ensures=['self.out == old(self.out) + text'])
+    w.contract('edb/pgsql/codegen.py', 'SQLSourceGenerator.visit_StringConstant', params={'self': 'PGen', 'node': 'SNode'}, returns='none', modifies=['PGen.out'],
+        ensures=['self.out == old(self.out) + PGQL(node.val)'],
+        hints={'ext_funcs': {'common.quote_literal': dict(params={'string': 'str'}, returns='str', returns_expr='PGQL(string)', modifies=[])}})
     return w
 
 def configure(vf):
